@@ -198,3 +198,4 @@ MANIFEST = {
     'note': 'Trusted: reference model statistics; the long-format line grammar as transcribed '
             'in vp/props/c11.py from the shipped output.',
 }
+MANIFEST['text'] += (' ' + 'The enumerating back end returns either the tightest or the slackest optimal values of the auxiliary variables; 12% of the cases are large or sparse-id-embedded instances on real CBC; cases may carry decoy objects on sibling instances.')
